@@ -100,7 +100,9 @@ func (p *DefaultProfile) Config() (conf *ProfileConfig) {
 
 // IsBlocked implements the [Profile] interface for *DefaultProfile.
 func (p *DefaultProfile) IsBlocked(req *dns.Msg, rAddr netip.AddrPort, l *geoip.Location) (blocked bool) {
-	ip := rAddr.Addr()
+	// Subnets have no zones, so [netip.Prefix.Contains] never matches a zoned
+	// (link-local) address.  Compare the address without its zone.
+	ip := rAddr.Addr().WithZone("")
 
 	return p.isBlockedByNets(ip, l) || p.isBlockedByHostsEng(req)
 }
